@@ -5,7 +5,8 @@
     - [handle_close]        internal/server/selection/selection.go HandleClose
     - [noop_notices]        internal/server/extension/extension.go HandleNoop
                             (same loop in HandleIdle)
-    - [store_junk_loop]     HandleStore: the Junk/NonJunk auto-move inside the
+    - [store_junk_loop], [handle_store_junk]
+                            HandleStore: the Junk/NonJunk auto-move inside the
                             per-sequence-number loop
     - counts / listings: [exists_count] (SELECT's EXISTS, STATUS MESSAGES:
       COUNT( * )), [search_all] (ROW_NUMBER() OVER (ORDER BY uid)),
@@ -21,10 +22,11 @@ Local Open Scope Z_scope.
 
 Record msg := { m_id : Z; m_uid : Z; m_flags : str }.
 
-(** SQL: flags LIKE '%\Deleted%'  (LIKE is case-insensitive for ASCII, no
-    ESCAPE clause, so the backslash is an ordinary character) *)
-Definition like_deleted (flags : str) : bool :=
-  contains (to_upper flags) (to_upper (S_ "\Deleted")).
+(** SQL: instr(' ' || flags || ' ', ' \Deleted ') > 0  — whole word between
+    single blanks, exact about case (commit 378938d; before: LIKE '%\Deleted%') *)
+Definition sp : ascii := " "%char.
+Definition sql_deleted (flags : str) : bool :=
+  contains ([sp] ++ flags ++ [sp]) (S_ " \Deleted ").
 
 (** sequenceMap[id] = seqNum over all rows (ids are the INTEGER PRIMARY KEY) *)
 Fixpoint number_from (k : Z) (l : list msg) : list (Z * Z) :=
@@ -60,10 +62,10 @@ Definition expunge_sel (sel : msg -> bool) (mbox : list msg) : list Z * list msg
   end.
 
 Definition handle_expunge (mbox : list msg) : list Z * list msg :=
-  expunge_sel (fun m => like_deleted (m_flags m)) mbox.
+  expunge_sel (fun m => sql_deleted (m_flags m)) mbox.
 
 Definition uid_expunge_sel (uids : list Z) (m : msg) : bool :=
-  existsb (Z.eqb (m_uid m)) uids && like_deleted (m_flags m).   (* uid IN (...) AND flags LIKE ... *)
+  existsb (Z.eqb (m_uid m)) uids && sql_deleted (m_flags m).   (* uid IN (...) AND flags LIKE ... *)
 
 Definition handle_uid_expunge (set : str) (mbox : list msg) : list Z * list msg :=
   match parse_uidset_db set (map m_uid mbox) with
@@ -73,7 +75,7 @@ Definition handle_uid_expunge (set : str) (mbox : list msg) : list Z * list msg 
 
 (** CLOSE: same deletion, no untagged responses *)
 Definition handle_close (mbox : list msg) : list msg :=
-  remove_ids (map m_id (filter (fun m => like_deleted (m_flags m)) mbox)) mbox.
+  remove_ids (map m_id (filter (fun m => sql_deleted (m_flags m)) mbox)) mbox.
 
 (** NOOP / IDLE: for i := last; i > current; i-- { "* i EXPUNGE" } *)
 Fixpoint count_down (hi : Z) (cnt : nat) : list Z :=
@@ -81,28 +83,39 @@ Fixpoint count_down (hi : Z) (cnt : nat) : list Z :=
 Definition noop_notices (last current : Z) : list Z :=
   if current <? last then count_down last (Z.to_nat (last - current)) else [].
 
+(** UID FETCH / STORE: seq_num = COUNT( * ) WHERE uid' <= uid *)
+Definition rank_of (uids : list Z) (u : Z) : Z :=
+  Z.of_nat (length (filter (fun v => v <=? u) uids)).
+
 (** HandleStore with a flag that triggers the auto-move (Junk added in a
-    mailbox other than Spam): per sequence number the row is looked up with
-    LIMIT 1 OFFSET seq-1 in the CURRENT table, moved away, and "* seq EXPUNGE"
-    is sent. Returns notices and the ids moved, and the new mailbox. *)
-Fixpoint store_junk_loop (seqs : list Z) (mbox : list msg) : list Z * list Z * list msg :=
+    mailbox other than Spam).  Since d84f911 the sequence numbers are resolved
+    to UIDs against a snapshot [uids0] taken before the loop; per number:
+    [seq > len(mailboxUIDs)] => continue; the row is looked up by UID in the
+    CURRENT table together with its current rank; not found => continue;
+    otherwise it is moved away and "* rank EXPUNGE" is sent.
+    Returns the notices, the ids moved, and the new mailbox. *)
+Fixpoint store_junk_loop (uids0 : list Z) (seqs : list Z) (mbox : list msg) : list Z * list Z * list msg :=
   match seqs with
   | [] => ([], [], mbox)
   | s :: r =>
-    match sql_limit_offset mbox 1 (s - 1) with
-    | m :: _ =>
-      let '(ns, ids, mb) := store_junk_loop r (remove_ids [m_id m] mbox) in
-      (s :: ns, m_id m :: ids, mb)
-    | [] => store_junk_loop r mbox          (* row not found: continue *)
-    end
+    if s >? Z.of_nat (length uids0) then store_junk_loop uids0 r mbox
+    else
+      let uid := nth (Z.to_nat (s - 1)) uids0 0 in
+      match find (fun m => m_uid m =? uid) mbox with
+      | Some m =>
+        let '(ns, ids, mb) := store_junk_loop uids0 r (remove_ids [m_id m] mbox) in
+        (rank_of (map m_uid mbox) uid :: ns, m_id m :: ids, mb)
+      | None => store_junk_loop uids0 r mbox
+      end
   end.
+
+Definition handle_store_junk (set : str) (mbox : list msg) : list Z * list Z * list msg :=
+  store_junk_loop (map m_uid mbox) (parse_seqset_db set (Z.of_nat (length mbox))) mbox.
 
 (** ---- counts and listings ---- *)
 Definition exists_count (mbox : list msg) : Z := Z.of_nat (length mbox).
 Definition search_all (mbox : list msg) : list Z := map fst (label_from 1 (map m_uid mbox)).
-(** UID FETCH: per uid, seq_num = COUNT( * ) WHERE uid' <= uid *)
-Definition rank_of (uids : list Z) (u : Z) : Z :=
-  Z.of_nat (length (filter (fun v => v <=? u) uids)).
+(** UID FETCH: per uid, seq_num = rank_of *)
 Definition uid_fetch_rows (set : str) (uids : list Z) : list (Z * Z) :=
   flat_map (fun u => if existsb (Z.eqb u) uids then [(rank_of uids u, u)] else [])
            (parse_uidset_db set uids).
@@ -112,7 +125,7 @@ Record mailbox := { rows : list msg; uid_next : Z; next_id : Z }.
 
 Inductive hop :=
 | HAppend (flags : str)          (* APPEND / delivery: uid := uid_next; uid_next++ *)
-| HCopyIn (flags : str)          (* COPY into this mailbox: uid := MAX(uid)+1, uid_next untouched *)
+| HCopyIn (flags : str)          (* COPY into this mailbox: uid := uid_next; uid_next++ (since 02d2f67) *)
 | HSetFlags (i : nat) (flags : str)
 | HExpunge
 | HUidExpunge (set : str)
@@ -141,8 +154,8 @@ Definition h_step (mb : mailbox) (o : hop) : mailbox :=
     {| rows := insert_row {| m_id := next_id mb; m_uid := uid_next mb; m_flags := f |} (rows mb);
        uid_next := uid_next mb + 1; next_id := next_id mb + 1 |}
   | HCopyIn f =>
-    {| rows := insert_row {| m_id := next_id mb; m_uid := max_uid_of (map m_uid (rows mb)) + 1; m_flags := f |} (rows mb);
-       uid_next := uid_next mb; next_id := next_id mb + 1 |}
+    {| rows := insert_row {| m_id := next_id mb; m_uid := uid_next mb; m_flags := f |} (rows mb);
+       uid_next := uid_next mb + 1; next_id := next_id mb + 1 |}
   | HSetFlags i f => {| rows := set_flags_nth i f (rows mb); uid_next := uid_next mb; next_id := next_id mb |}
   | HExpunge => {| rows := snd (handle_expunge (rows mb)); uid_next := uid_next mb; next_id := next_id mb |}
   | HUidExpunge s => {| rows := snd (handle_uid_expunge s (rows mb)); uid_next := uid_next mb; next_id := next_id mb |}
